@@ -690,7 +690,7 @@ func printManifest() {
 		}},
 		"checks":         checks,
 		"not_applicable": na,
-		"notes":          "Technique family: static analysis only. Every claimed property is claimed at level 'other' through named structural rules that are necessary conditions of the behaviour (DESIGN.md §5 says which clause each rule decides and what stays uncovered). Genuine defects found while deriving the rules were repaired in /repo by ten 'fix:' commits, recorded as 'fixed:' in known_findings.txt.",
+		"notes":          "Technique family: static analysis only. Every claimed property is claimed at level 'other' through named structural rules that are necessary conditions of the behaviour (DESIGN.md §5 says which clause each rule decides and what stays uncovered). Genuine defects found while deriving the rules were repaired in /repo by eighteen 'fix:' commits, recorded as 'fixed:' in known_findings.txt.",
 	}
 	b, _ := json.MarshalIndent(m, "", " ")
 	fmt.Println(string(b))
